@@ -8,6 +8,12 @@ DocsC == { [lang |-> "plain", chunks |-> <<[chars |-> "c1", toks |-> "c1/plain"]
            [lang |-> "plain", chunks |-> <<[chars |-> "c3", toks |-> "c3/plain"], [chars |-> "c3", toks |-> "c3/plain"]>>] }
 \* one-language pool: the situation in harper-ls (one linter per document)
 DocsOneLang == {d \in DocsC : d.lang = "plain"}
+\* the same clause after a paragraph break and glued to a terminator
+DocsGlue == { [lang |-> "plain", chunks |-> <<[chars |-> "c1", toks |-> "c1/plain", before |-> "start"]>>],
+              [lang |-> "plain", chunks |-> <<[chars |-> "c2", toks |-> "c2/plain", before |-> "start"], [chars |-> "c1", toks |-> "c1/plain", before |-> "break"]>>],
+              [lang |-> "plain", chunks |-> <<[chars |-> "c2", toks |-> "c2/plain", before |-> "start"], [chars |-> "c1", toks |-> "c1/plain", before |-> "comma"]>>] }
+NoRules == {}
+PeekP1 == {"p1"}
 Whole == {"w1"}
 Pattern == {"p1", "p2"}
 =============================================================================
